@@ -9,7 +9,7 @@ import numpy as np
 from .. import alph
 from .. import oracles as O
 from ..alph import Rx, Ry, Rz
-from ..core import CaseResult
+from ..core import CaseResult, variants
 
 PROP = "C09"
 LEVEL = "exploration"
@@ -257,6 +257,67 @@ def check_case(case):
                             gt = Ry(wy) @ Rz(float(o)) @ g
                             r.check("find_omega_wedge", float(np.max(np.abs(gt - target(tth, float(e))))) / st, 1e-8, tk + ":wedge:cond", "diffraction condition (near tangency)")
                 r.nontrivial.add("band:%g:%g:%g" % (tthd, delta, phi))
+    # constructed solutions: g is built so that a KNOWN omega diffracts at a known eta, with omega on a ladder of offsets around 0, pi, +-pi/2
+    # (where arccos / arcsin formulas lose digits and a rounded cosine bites); each solver must return that omega and satisfy the condition
+    for w0 in (0.0, math.pi, -math.pi / 2, math.pi / 2, 2.0):
+        for off in (3e-6, -1e-5, 1e-4, -1e-3, 3e-3):
+            w = w0 + off
+            w = (w + math.pi) % (2 * math.pi) - math.pi
+            for eta in (0.3, 2.0, 3.5, 5.5):
+                tg = target(tth, eta)
+                for sname, wx, wy in (("find_omega", 0.0, 0.0), ("general", 0.1, -0.1), ("general", 0.0, 0.0), ("quart", 0.1, -0.1), ("wedge", 0.0, 0.07)):
+                    if sname in ("find_omega", "general"):
+                        M = Rx(wx) @ Ry(wy) @ Rz(w)
+                    elif sname == "quart":
+                        P_ = Rx(wx) @ Ry(wy)
+                        M = P_ @ Rz(w) @ P_.T
+                    else:
+                        M = Ry(-wy) @ Rz(w)
+                    g = M.T @ tg
+                    key = "%s:tth=%g:constructed(%s,omega=%.9g,eta=%g,tilt=%g,%g)" % (mname, tthd, sname, w, eta, wx, wy)
+                    try:
+                        if sname == "find_omega":
+                            om = [float(x) for x in mod.find_omega(g * scale, tth)]
+                            et = [None] * len(om)
+                        elif sname == "general":
+                            o_, e_ = mod.find_omega_general(g * scale, tth, wx, wy)
+                            om, et = [float(x) for x in o_], [float(x) for x in e_]
+                        elif sname == "quart":
+                            o_, e_ = mod.find_omega_quart(g * scale, tth, wx, wy)
+                            om, et = [float(x) for x in o_], [float(x) for x in e_]
+                        else:
+                            o_, e_ = mod.find_omega_wedge(g * scale, tth, wy)
+                            om, et = [float(x) for x in o_], [float(x) for x in e_]
+                    except Exception as ex:
+                        r.evals += 1
+                        r.violation(key + ":exception", "solver raised on a g-vector that diffracts", None, repr(ex))
+                        continue
+                    r.require(any(circ_dist(o, w) <= 1e-7 for o in om), key + ":recovered", "the constructed omega is among the solutions", w, om)
+                    for o, e in zip(om, et):
+                        if sname == "quart":
+                            Mo = P_ @ Rz(o) @ P_.T
+                        elif sname == "wedge":
+                            Mo = Ry(-wy) @ Rz(o)
+                        else:
+                            Mo = Rx(wx) @ Ry(wy) @ Rz(o)
+                        gt = Mo @ g
+                        dev = abs(gt[0] + st * st) / st if e is None else float(np.max(np.abs(gt - target(tth, e)))) / st
+                        r.check("constructed", dev, 1e-9, key + ":cond", "diffraction condition for the returned (omega, eta)", None, {"omega": o, "eta": e, "dev": dev})
+                r.nontrivial.add("constructed:%g:%g:%g" % (tthd, w0, off))
+    # argument kinds x call forms for the four solvers (also: the caller's g-vector must come back unchanged)
+    gk = st * np.array([0.36, -0.48, 0.8])
+    for fn_, a_ in ((mod.find_omega, [gk * scale, tth]), (mod.find_omega_general, [gk * scale, tth, 0.1, -0.1]), (mod.find_omega_quart, [gk * scale, tth, 0.1, -0.1]),
+                    (mod.find_omega_wedge, [gk * scale, tth, 0.07])):
+        def dset(a, b):
+            fa = [np.sort(np.asarray(x, float).reshape(-1)) for x in (a if isinstance(a, tuple) else (a,))]
+            fb = [np.sort(np.asarray(x, float).reshape(-1)) for x in (b if isinstance(b, tuple) else (b,))]
+            if [x.shape for x in fa] != [x.shape for x in fb]:
+                return float("inf")
+            return max([float(np.max(np.abs(x - y))) if x.size else 0.0 for x, y in zip(fa, fb)] + [0.0])
+        for pos in range(len(a_)):
+            # no float32 for g in xfab.tools (its assertion demands |g| = sin(theta) to 1e-9) nor for 2theta (the solvers evaluate sin(theta) in the
+            # precision of the argument and assert the same identity): inputs that violate the asserted precondition are outside the property
+            variants(r, "%s:tth=%g:%s" % (mname, tthd, fn_.__name__), fn_, a_, pos, 1e-9, None if (pos == 1 or (pos == 0 and mname == "tools")) else 1e-3, dev=dset)
     # g given at another length (0.9x, 2 pi x, unit length): xfab.tools may refuse it (AssertionError: nothing returned, nothing
     # claimed) but whatever a solver RETURNS must solve the diffraction condition for g scaled to sin(theta), and be complete
     for d in dirs[:: max(1, len(dirs) // 12)]:
